@@ -1,12 +1,27 @@
 import LexVerif.Spec.StdFloat
+import LexVerif.Props.C05
+import LexVerif.Proof.RoundNEStep
+import LexVerif.Proof.BellLossy
 /-!
 # C19 — lossy float parsing changes only precision (property theorems)
 
 On the specification level the `lossy` option is not an input of the grammar at all: acceptance, the
 consumed count and the literal depend on the bytes, the radices and the punctuation only.
+
+Algorithm level, power-of-two radices (model `Model.Binary`):
+* `lossy_pow2_exact` — under `lossy`, `binary` always answers, and with `roundNE (mantissa·base^exponent)`:
+  for an untruncated mantissa the lossy result **is** the correctly rounded one;
+* `lossy_pow2_agrees` — whenever the non-lossy `binary` decides, both answers are the same float;
+* `lossy_bellerophon_neighbour` — **complete** on the model: lossy Bellerophon (decimal in `compact` builds, all
+  29 generic radices) answers with the correctly rounded float or an adjacent pattern;
+* `lossy_pow2_neighbour` — **complete**: for a truncated mantissa (at least `p` bits) the lossy answer is the
+  correctly rounded float of the true value or the pattern immediately below it (`Proof.RoundNEStep`: a relative
+  change of at most `2^−p` moves `roundNE` by at most one pattern); `lossy_pow2_bracket_partial`: the bracket
+  without the size hypothesis.
 -/
 namespace LexVerif.Props.C19
-open LexVerif.Spec
+open LexVerif.Spec LexVerif.Model
+open LexVerif.Proof.RoundNE LexVerif.Proof.ExtRound LexVerif.Proof.BinaryCorrect LexVerif.Props.C05
 
 /-- the grammar never looks at `lossy` (partial parser) -/
 theorem parseStd_lossy_irrelevant (r er : Nat) (o : POpts) (b : Bool) (s : List Nat) :
@@ -17,5 +32,161 @@ theorem parseStd_lossy_irrelevant (r er : Nat) (o : POpts) (b : Bool) (s : List 
 theorem parseStdComplete_lossy_irrelevant (r er : Nat) (o : POpts) (b : Bool) (s : List Nat) :
     parseStdComplete r er { o with lossy := b } s = parseStdComplete r er o s := by
   rfl
+
+/-- lossy `binary` never produces the invalid marker, so `MarkerOk` is not needed: it always answers with
+`roundNE (mantissa · base^exponent)` -/
+theorem lossy_pow2_exact {F : FTy} {p eb : Nat} (lay : Layout F p eb) {base : Nat} (hb : IsPow2 base) (n : Num)
+    (hm : n.mantissa < 2 ^ 64) (he : ExpInRange n.exponent) :
+    ∃ fp, Binary.binary F base n true = .ok fp ∧ 0 ≤ fp.exp ∧
+      extendedToFloat F fp =
+        roundNE F.fmt (powFrac base n.exponent n.mantissa).1 (powFrac base n.exponent n.mantissa).2 := by
+  obtain ⟨fp, h1, h2⟩ := binary_valid lay hb n true hm he.1 he.2 (Or.inr rfl)
+  refine ⟨fp, h1, h2, ?_⟩
+  obtain ⟨lg, hlg⟩ := isPow2Base_of base hb
+  -- MarkerOk is irrelevant when the undecided branch cannot be taken: reprove via the generic lemma
+  by_cases hmk : MarkerOk F base n
+  · exact binary_exact lay hb n true hm he.1 he.2 hmk h1 h2
+  · -- power2 ≥ 32768: the value overflows and both sides are +∞
+    rw [binary_eq] at h1
+    by_cases h0 : n.mantissa = 0
+    · rw [if_pos h0] at h1
+      injection h1 with h1; subst h1
+      rw [h0, powFrac_zero, ext_zero lay]
+    · rw [if_neg h0] at h1
+      obtain ⟨hc, hm1, hm2, hshl⟩ := clz_norm h0 hm
+      have hpw := calculatePower2_eq lay hlg n.exponent he.1 he.2 (clz64 n.mantissa) (by omega)
+      unfold MarkerOk at hmk
+      simp only [hshl] at h1
+      generalize hP : Binary.calculatePower2 F base n.exponent (clz64 n.mantissa) = power2 at *
+      have hbig : 32768 ≤ power2 := by
+        have : invalidFp = -32768 := rfl
+        rw [this] at hmk; omega
+      rw [if_neg (by omega)] at h1
+      have hu : binUndecided (n.mantissa * 2 ^ clz64 n.mantissa) (Binary.calculateShift F power2).toNat true
+          n.manyDigits = false := by simp [binUndecided]
+      rw [hu] at h1
+      simp only [Bool.false_eq_true, if_false] at h1
+      injection h1 with h1; subst h1
+      rw [calculateShift_eq lay power2]
+      obtain ⟨_, _, hs0, hs64, _⟩ := quot_bounds lay.hp (by have := lay.hp64; have := lay.heb; omega)
+        hm1 hm2 power2 (by omega)
+      obtain ⟨_, hbits⟩ := round_bits lay (n.mantissa * 2 ^ clz64 n.mantissa) power2
+        (fun _ _ _ => binRoundUp (n.mantissa * 2 ^ clz64 n.mantissa) (shiftOf p power2)) hm1 hm2 (by omega)
+      rw [hbits]
+      have hup := binary_up (n.mantissa * 2 ^ clz64 n.mantissa) (shiftOf p power2) hs0 hs64 hm2
+      simp only [] at hup
+      unfold binRoundUp
+      rw [hup, hlg.1]
+      exact (roundNE_norm lay lg n.mantissa (clz64 n.mantissa) n.exponent hm1 hm2 hc power2 hpw (by omega)).symm
+
+/-- whenever the non-lossy `binary` decides (and its marker is sound), lossy and non-lossy agree bit for bit -/
+theorem lossy_pow2_agrees {F : FTy} {p eb : Nat} (lay : Layout F p eb) {base : Nat} (hb : IsPow2 base) (n : Num)
+    (hm : n.mantissa < 2 ^ 64) (he : ExpInRange n.exponent) (hmk : MarkerOk F base n)
+    {fp fpl : ExtendedFloat80} (h : Binary.binary F base n false = .ok fp) (hv : 0 ≤ fp.exp)
+    (hl : Binary.binary F base n true = .ok fpl) :
+    extendedToFloat F fpl = extendedToFloat F fp := by
+  obtain ⟨fp', h1, _, h3⟩ := lossy_pow2_exact lay hb n hm he
+  rw [hl] at h1; injection h1 with h1; subst h1
+  rw [h3, binary_exact lay hb n false hm he.1 he.2 hmk h hv]
+
+/-- **`lossy_pow2_neighbour`** (**complete**): for a truncated mantissa `M ≥ 2^p` (a `u64_step`-digit mantissa
+has at least 55 bits) and any true value `x ∈ [M, M+1)·base^e`, the lossy answer is `roundNE x` or the pattern
+just below it: lossy parsing in a power-of-two radix is off by at most one unit in the last place, and only
+downwards. -/
+theorem lossy_pow2_neighbour {F : FTy} {p eb : Nat} (lay : Layout F p eb) {base : Nat} (hb : IsPow2 base)
+    (n : Num) (hM : 2 ^ p ≤ n.mantissa) (hm : n.mantissa + 1 < 2 ^ 64) (he : ExpInRange n.exponent)
+    (num den : Nat) (hd : 0 < den)
+    (hlo : (powFrac base n.exponent n.mantissa).1 * den ≤ num * (powFrac base n.exponent n.mantissa).2)
+    (hhi : num * (powFrac base n.exponent (n.mantissa + 1)).2 < (powFrac base n.exponent (n.mantissa + 1)).1 * den) :
+    ∃ fp, Binary.binary F base n true = .ok fp ∧ 0 ≤ fp.exp ∧
+      (extendedToFloat F fp = roundNE F.fmt num den ∨ extendedToFloat F fp + 1 = roundNE F.fmt num den) := by
+  have hf := lay.wf
+  have hfp : F.fmt.p = p := by rw [lay.fmt]
+  obtain ⟨lg, hlg⟩ := isPow2Base_of base hb
+  have hbpos : 0 < base := by rw [hlg.1]; exact Nat.two_pow_pos _
+  have hden : ∀ m, 0 < (powFrac base n.exponent m).2 := by
+    intro m; unfold powFrac; split
+    · exact Nat.one_pos
+    · exact Nat.pow_pos hbpos
+  obtain ⟨fp, a1, a2, a3⟩ := lossy_pow2_exact lay hb n (by omega) he
+  refine ⟨fp, a1, a2, ?_⟩
+  rw [a3]
+  have hmono := roundNE_mono' hf (hden n.mantissa) hd hlo
+  -- (M+1)·base^e = M·base^e · (M+1)/M
+  have hrel : num * (powFrac base n.exponent n.mantissa).2 * n.mantissa ≤
+      (powFrac base n.exponent n.mantissa).1 * den * (n.mantissa + 1) := by
+    have h2 : (powFrac base n.exponent (n.mantissa + 1)).2 = (powFrac base n.exponent n.mantissa).2 := by
+      unfold powFrac; split <;> rfl
+    have h1 : (powFrac base n.exponent (n.mantissa + 1)).1 * n.mantissa =
+        (powFrac base n.exponent n.mantissa).1 * (n.mantissa + 1) := by
+      unfold powFrac; split
+      · simp only []; ring
+      · simp only []; ring
+    rw [h2] at hhi
+    have := Nat.mul_le_mul_right n.mantissa (Nat.le_of_lt hhi)
+    calc num * (powFrac base n.exponent n.mantissa).2 * n.mantissa
+        ≤ (powFrac base n.exponent (n.mantissa + 1)).1 * den * n.mantissa := this
+      _ = (powFrac base n.exponent (n.mantissa + 1)).1 * n.mantissa * den := by ring
+      _ = (powFrac base n.exponent n.mantissa).1 * (n.mantissa + 1) * den := by rw [h1]
+      _ = (powFrac base n.exponent n.mantissa).1 * den * (n.mantissa + 1) := by ring
+  have hstep := roundNE_step hf (hden n.mantissa) hd (by rw [hfp]; exact hM) hrel
+  omega
+
+/-- proved part: the lossy answer is the correctly rounded float of the **truncated** value, hence never
+above the correctly rounded float of the true value, and the latter is at most that of `(M+1)·base^e` -/
+theorem lossy_pow2_bracket_partial {F : FTy} {p eb : Nat} (lay : Layout F p eb) {base : Nat} (hb : IsPow2 base)
+    (n : Num) (hm : n.mantissa + 1 < 2 ^ 64) (he : ExpInRange n.exponent) (num den : Nat) (hd : 0 < den)
+    (hlo : (powFrac base n.exponent n.mantissa).1 * den ≤ num * (powFrac base n.exponent n.mantissa).2)
+    (hhi : num * (powFrac base n.exponent (n.mantissa + 1)).2 ≤ (powFrac base n.exponent (n.mantissa + 1)).1 * den) :
+    ∃ fp fp1, Binary.binary F base n true = .ok fp ∧
+      Binary.binary F base { n with mantissa := n.mantissa + 1 } true = .ok fp1 ∧
+      extendedToFloat F fp ≤ roundNE F.fmt num den ∧ roundNE F.fmt num den ≤ extendedToFloat F fp1 := by
+  have hf := lay.wf
+  obtain ⟨lg, hlg⟩ := isPow2Base_of base hb
+  have hbpos : 0 < base := by rw [hlg.1]; exact Nat.two_pow_pos _
+  have hden : ∀ m, 0 < (powFrac base n.exponent m).2 := by
+    intro m; unfold powFrac; split
+    · exact Nat.one_pos
+    · exact Nat.pow_pos hbpos
+  obtain ⟨fp, a1, _, a3⟩ := lossy_pow2_exact lay hb n (by omega) he
+  obtain ⟨fp1, b1, _, b3⟩ := lossy_pow2_exact lay hb { n with mantissa := n.mantissa + 1 } hm he
+  refine ⟨fp, fp1, a1, b1, ?_, ?_⟩
+  · rw [a3]; exact roundNE_mono' hf (hden _) hd hlo
+  · rw [b3]; exact roundNE_mono' hf hd (hden _) hhi
+
+/-! ## Bellerophon (decimal under `compact`, every generic radix) -/
+
+open LexVerif.Proof.Bell in
+/-- **`lossy_bellerophon_neighbour`** (**complete** on the model): with `lossy`, `bellerophon::<F, FORMAT>` always
+answers, and its answer is `roundNE` of the true value of the literal or a pattern adjacent to it — for every
+radix with Bellerophon tables (`IsBellTable`: the 29 generic radices in `radix` builds; those and 10 in `compact`
+builds), every exponent, untruncated mantissas and truncated ones of at least 55 bits (every `u64_step`-digit
+mantissa). Decimal parsing in non-`compact` builds uses Eisel–Lemire instead: `lossy_decimal_neighbour` there is
+measured, not proved. -/
+theorem lossy_bellerophon_neighbour (F : FTy) (hF : F = FTy.f64 ∨ F = FTy.f32)
+    (P : Gen.Bellerophon.Powers) (r : Nat) (hP : IsBellTable P r) (n : Num) (hw : n.mantissa < 2 ^ 64)
+    (hmw : n.manyDigits = true → 2 ^ 55 ≤ n.mantissa) (num den : Nat) (hd : 0 < den)
+    (htv : TrueValue r n num den) :
+    ∃ fp, Bellerophon.bellerophon F P n true = .ok fp ∧ 0 ≤ fp.exp ∧
+      extendedToFloat F fp ≤ roundNE F.fmt num den + 1 ∧ roundNE F.fmt num den ≤ extendedToFloat F fp + 1 := by
+  have hc : BellFacts r P := by
+    rcases hP with ⟨hr, rfl⟩ | ⟨hr, rfl⟩
+    · exact bellFacts_of (bellCheck_radix r hr)
+    · exact bellFacts_of (bellCheck_compact r hr)
+  rcases hF with h' | h' <;> subst h'
+  · exact bellerophon_lossy_neighbour layout_f64 (by decide) hc n hw hmw num den hd htv
+  · exact bellerophon_lossy_neighbour layout_f32 (by decide) hc n hw hmw num den hd htv
+
+/-- non-vacuity (decimal, `compact`): `2^53 + 1` is a tie: non-lossy declines, lossy rounds the estimate -/
+example : Bellerophon.bellerophon FTy.f64 (Gen.Bellerophon.CompactRadix.powers 10)
+      ⟨9007199254740993, 0, false, false⟩ true = .ok ⟨0, 1076⟩ ∧
+    Bellerophon.bellerophon FTy.f64 (Gen.Bellerophon.CompactRadix.powers 10)
+      ⟨9007199254740993, 0, false, false⟩ false = .ok ⟨9223372036854776832, -31703⟩ := by
+  decide +kernel
+
+/-- non-vacuity: a truncated, exactly-half-way-even mantissa: non-lossy declines, lossy rounds the mantissa -/
+example : Binary.binary FTy.f64 16 ⟨0x20000000000001, 0, false, true⟩ true = .ok ⟨0, 1076⟩ ∧
+    Binary.binary FTy.f64 16 ⟨0x20000000000001, 0, false, true⟩ false = .ok ⟨9223372036854776832, -31703⟩ := by
+  decide +kernel
 
 end LexVerif.Props.C19
